@@ -281,7 +281,7 @@ type extOp struct {
 }
 
 func (w *cworld) applyExt(op extOp) {
-	if op.Op == "recreate-revisions" || op.Op == "orphan-revisions" || op.Op == "relabel-revisions" {
+	if op.Op == "recreate-revisions" || op.Op == "orphan-revisions" || op.Op == "relabel-revisions" || op.Op == "steal-revisions" {
 		// every ControllerRevision: a new incarnation under the same name / no owner any more / extra labels
 		// (Data["labels"], also with orphan-revisions)
 		mdOf := func(o J) J {
@@ -300,6 +300,10 @@ func (w *cworld) applyExt(op extOp) {
 				delete(m, "uid")
 			} else if op.Op == "orphan-revisions" {
 				delete(m, "ownerReferences")
+			} else if op.Op == "steal-revisions" {
+				// another parent has adopted it (after a release, an overlapping selector)
+				m["ownerReferences"] = []interface{}{map[string]interface{}{"apiVersion": "ctl.example.com/v1", "kind": "Thing",
+					"name": "somebody-else", "uid": "uid-somebody-else", "controller": true, "blockOwnerDeletion": true}}
 			}
 			if extra, ok := op.Data["labels"].(J); ok {
 				ls, _ := m["labels"].(map[string]interface{})
